@@ -141,6 +141,7 @@ package proto
 //@ ensures {C01} err == nil && isLine(msg.Type) ==> forall j int :: 1 <= j && j <= len(msg.bytes) ==> result0[j] == clean(msg.bytes[j-1])
 //@ ensures {C01} isLine(msg.Type) ==> err == nil
 //@ ensures {C01} msg.Type == BulkMessage ==> err == nil
+//@ ensures {C01} msg.Type == ArrayMessage && msg.array != nil && leafArr(msg.array) ==> err == nil
 //@ ensures {C01} msg.Type == BulkMessage && msg.bytes == nil ==> len(result0) == 5 && result0[1] == 45 && result0[2] == 49
 //@ ensures {C01} msg.Type == BulkMessage && msg.bytes != nil ==> len(result0) == 1 + len(itoa(len(msg.bytes))) + 2 + len(msg.bytes) + 2
 //@ ensures {C01} msg.Type == BulkMessage && msg.bytes != nil ==> forall i int :: 0 <= i && i < len(itoa(len(msg.bytes))) ==> result0[1+i] == itoa(len(msg.bytes))[i]
@@ -153,12 +154,16 @@ package proto
 //@   invariant noCRLF(msg.bytes) ==> forall j int :: 1 <= j && j <= rangeindex + 1 ==> buf_data[&respBytes][j] == msg.bytes[j-1]
 //@   decreases len(msg.bytes) - rangeindex
 
+//@ spec func leafArr(a ref) bool = forall k int :: 0 <= k && k < len(a.msgs) ==> a.msgs[k] != nil && (isLine(a.msgs[k].Type) || a.msgs[k].Type == BulkMessage)
+
 //@ func (*Array).RESPBytes
 //@ assigns nothing
 //@ ensures {C04} err == nil ==> frameHead(result0) && result0[0] == 42
 //@ ensures {C01} err == nil ==> forall i int :: 0 <= i && i < len(itoa(len(array.msgs))) ==> result0[1+i] == itoa(len(array.msgs))[i]
 //@ ensures {C01} err == nil ==> result0[1+len(itoa(len(array.msgs)))] == 13 && result0[2+len(itoa(len(array.msgs)))] == 10
 //@ ensures {C07} err == nil ==> forall k int :: 0 <= k && k < len(array.msgs) ==> array.msgs[k] != nil
+// completeness: an array of status/error/integer/bulk values (null bulks included) always serializes
+//@ ensures {C01} leafArr(array) ==> err == nil
 //@ loop 0
 //@   invariant 0 <= n && n <= arraySize && arraySize == len(array.msgs)
 //@   invariant buf_len[&respBytes] >= 3 + len(itoa(arraySize))
@@ -196,18 +201,26 @@ package proto
 //@ requires {C07,C12} (step == 1 || step == 2) && len(array.msgs) % step == 0
 //@ assigns nothing
 //@ ensures {C12} result != nil && fresh(result) && result.index == 0 && len(result.msgs) == len(array.msgs)
+// the groups of `step` elements come out in reverse order, each group in its own order (member before score for step 2)
+//@ ensures {C12} step == 1 ==> forall k int :: 0 <= k && k < len(array.msgs) ==> result.msgs[k] == array.msgs[len(array.msgs) - 1 - k]
+//@ ensures {C12} step == 2 ==> forall k int :: 0 <= k && k < len(array.msgs) ==> result.msgs[k] == array.msgs[len(array.msgs) - 2 - k + 2 * (k % 2)]
 //@ loop 0
 //@   invariant 0 <= i && i <= l && i % step == 0 && l == len(array.msgs) && l % step == 0
 //@   invariant ra != nil && fresh(ra) && len(ra.msgs) == i && ra.index == 0 && fresh(ra.msgs)
+//@   invariant {C12} step == 1 ==> forall k int :: 0 <= k && k < i ==> ra.msgs[k] == array.msgs[l - 1 - k]
+//@   invariant {C12} step == 2 ==> forall k int :: 0 <= k && k < i ==> ra.msgs[k] == array.msgs[l - 2 - k + 2 * (k % 2)]
 //@   decreases l - i
 //@ loop 1
 //@   invariant 0 <= j && j <= step && 0 <= i && i < l && i % step == 0 && l == len(array.msgs) && l % step == 0
 //@   invariant ra != nil && fresh(ra) && len(ra.msgs) == i + j && ra.index == 0 && fresh(ra.msgs)
+//@   invariant {C12} step == 1 ==> forall k int :: 0 <= k && k < i + j ==> ra.msgs[k] == array.msgs[l - 1 - k]
+//@   invariant {C12} step == 2 ==> forall k int :: 0 <= k && k < i + j ==> ra.msgs[k] == array.msgs[l - 2 - k + 2 * (k % 2)]
 //@   decreases step - j
 
 //@ func (*Array).Reverse
 //@ assigns nothing
 //@ ensures {C12} result != nil && fresh(result) && result.index == 0 && len(result.msgs) == len(array.msgs)
+//@ ensures {C12} forall k int :: 0 <= k && k < len(array.msgs) ==> result.msgs[k] == array.msgs[len(array.msgs) - 1 - k]
 
 //@ func (*Array).Size
 //@ assigns nothing
